@@ -114,13 +114,15 @@ def run(ctx):
         oks = [bb for bb, j, st in f.stmts() if st["k"] == "assign" and st["place"]["l"] == 0 and st["rv"]["k"] == "agg"
                and st["rv"].get("variant") == "Ok"]
         if su and eofs and emp:
-            fail_reg = C.reach(f, [su[0][2][1]])
-            lenient = [b for b in oks if b in fail_reg and b not in C.reach(f, [su[0][1][1]]) or
-                       (b in fail_reg and not guarded(f, [b], su, False))]
-            lenient = [b for b in oks if not guarded(f, [b], su, False)]
+            # Ok answers reachable once success() has answered false: each must lie behind both `!eof` and `stderr empty`
+            ft = su[0][2][1]
+            fail_reg = C.reach(f, [ft])
+            lenient = [b for b in oks if b in fail_reg]
             errs = [bb for bb, j, st in f.stmts() if st["k"] == "assign" and st["place"]["l"] == 0 and st["rv"]["k"] == "agg"
-                    and st["rv"].get("variant") == "Err"]
-            good = lenient and all(not guarded(f, [b], eofs, False) and not guarded(f, [b], emp, True) for b in lenient) and errs
+                    and st["rv"].get("variant") == "Err" and bb in fail_reg]
+            no_eof = C.reach(f, [ft], removed_edges={x[2] for x in eofs})      # paths that never take the `eof == false` edge
+            no_emp = C.reach(f, [ft], removed_edges={x[1] for x in emp})       # paths that never take the `is_empty() == true` edge
+            good = lenient and errs and not any(b in no_eof or b in no_emp for b in lenient)
             if good:
                 r.ok("status", "failing status ⇒ Err unless (!eof ∧ stderr empty)", fn=f)
             else:
